@@ -144,6 +144,7 @@ Connect(h) ==
   /\ hdr' = h
   /\ UNCHANGED <<srv, peer, inflight, cur, alloc, outcome, react, replyWF, nframes, listener, nilStored, probe, probeReact>>
 
+CanSend == hdr = "coord" /\ peer = "open" /\ inflight = NoFrame /\ nframes < MaxFrames /\ srv = "AwaitType"
 Send(f) ==
   /\ hdr = "coord" /\ peer = "open" /\ inflight = NoFrame /\ nframes < MaxFrames
   /\ srv = "AwaitType"                  \* the previous frame has been consumed and the server still reads
@@ -267,7 +268,7 @@ Probe ==
 
 Next ==
   \/ \E h \in {"coord", "other"} : Connect(h)
-  \/ \E f \in Frames : Send(f)
+  \/ CanSend /\ \E f \in Frames : Send(f)
   \/ HalfClose \/ Disconnect
   \/ MuxDispatch \/ SrvReadType \/ SrvReadLen \/ SrvReadPayload \/ SrvDispatch \/ SrvReply
   \/ Probe
